@@ -10,11 +10,11 @@ package worldsim
 
 import (
 	"encoding/json"
-	"sync/atomic"
 	"fmt"
 	"runtime/debug"
 	"sort"
 	"strings"
+	"sync/atomic"
 
 	"github.com/xjslang/xjs/ast"
 	"github.com/xjslang/xjs/compiler"
@@ -78,9 +78,9 @@ const (
 
 type nopEnv struct{ yields int64 }
 
-func (n *nopEnv) Yield(int)                         { n.yields++ }
+func (n *nopEnv) Yield(int)                        { n.yields++ }
 func (n *nopEnv) Spawn(_ string, fn func()) func() { fn(); return func() {} }
-func (n *nopEnv) Note(int, any)                     {}
+func (n *nopEnv) Note(int, any)                    {}
 
 // ---- job specification -----------------------------------------------------------
 
@@ -106,6 +106,7 @@ type InputSpec struct {
 	Fault    string        `json:"fault,omitempty"`
 	Compiles []CompileStep `json:"compiles"`
 	Debug    bool          `json:"debug"`
+	LexAlone bool          `json:"lex_alone,omitempty"`
 	LateOp   *OpSpec       `json:"late_op,omitempty"` // registered on the shared builder just before this input's Build
 	LateName string        `json:"late_name,omitempty"`
 }
@@ -243,6 +244,7 @@ func GenJob(seed uint64) *JobSpec {
 			in.Compiles = append(in.Compiles, CompileStep{Cfg: c, Reuse: ch.Bool(1, 2)})
 		}
 		in.Debug = ch.Bool(2, 3)
+		in.LexAlone = ch.Bool(1, 3)
 		if k > 0 && !plain && ch.Bool(1, 3) {
 			// a registration that arrives after earlier parsers were built
 			if ch.Bool(1, 2) && len(words) < len(wordPool) {
@@ -414,6 +416,14 @@ type sink struct {
 	// results handed out by Compile are kept and looked at again when the job ends:
 	// a later compilation (same compiler or not) must not change them
 	kept []keptResult
+	// parsers are kept too: what they report must not change when their siblings parse
+	parsers []keptParser
+}
+
+type keptParser struct {
+	k    int
+	p    *parser.Parser
+	errs string
 }
 
 type keptResult struct {
@@ -597,6 +607,27 @@ func RunJob(spec *JobSpec, env Env, full bool) *JobResult {
 		}
 		j.plogOf(p) // created here so that parts only read the table
 		j.lexOf[p] = j.curTlog
+		// lexers are instances too: a stand-alone lexer from the same (shared) lexer builder reads the input
+		// to its end while the other tasks run; what it delivers is part of the job's result
+		if in.LexAlone {
+			var lh uint64
+			n := 0
+			pan := guard(func() {
+				lx := j.b.lb.Build(in.Text)
+				for n < 2*len(in.Text)+8 {
+					t := lx.NextToken()
+					lh = mixTok(kernel.Mix(lh, uint64(t.End.Line)<<20^uint64(t.End.Column)), t)
+					for _, c := range t.LeadingComments {
+						lh = kernel.Mix(lh, kernel.Hash64(fmt.Sprint(c)))
+					}
+					n++
+					if t.Type == token.EOF {
+						break
+					}
+				}
+			})
+			main.put(fmt.Sprintf("in%d/lex-alone", k), fmt.Sprintf("%d tokens %016x %s", n, lh, pan))
+		}
 		ps := &sink{full: full}
 		partSinks[k] = ps
 		waits = append(waits, env.Spawn(fmt.Sprintf("part%d", k), func() { progs[k] = j.part(ps, k, p) }))
@@ -651,6 +682,11 @@ func RunJob(spec *JobSpec, env Env, full bool) *JobResult {
 		}
 		res.KVs = append(res.KVs, s.kvs...)
 		res.Invariants = append(res.Invariants, s.invs...)
+		for _, kp := range s.parsers {
+			if now := xutil.ErrorsString(kp.p.Errors()); now != kp.errs {
+				res.Invariants = append(res.Invariants, fmt.Sprintf("parser-errors-changed-after-sibling-parsers-ran\x00input %d: reported %q when it finished, reports %q at job end", kp.k, kp.errs, now))
+			}
+		}
 		for _, k := range s.kept {
 			pan := ""
 			if i := strings.Index(k.text, k.res.Code+"\n--map--\n"); i > 0 {
@@ -847,6 +883,9 @@ func (j *jobRun) part(s *sink, k int, p *parser.Parser) *ast.Program {
 	}
 	parseText := fmt.Sprintf("panic=%q err=%q errors=%s ctx=%d inFunc=%v\n%s", pan, es, errs, p.CurrentContext(), p.IsInFunction(), xutil.Dump(prog))
 	s.put(fmt.Sprintf("in%d/parse", k), parseText)
+	if pan == "" {
+		s.parsers = append(s.parsers, keptParser{k, p, errs})
+	}
 	obs := ""
 	if pl := j.plogs[p]; pl != nil {
 		obs = fmt.Sprintf("%d events %016x", pl.events, pl.h)
